@@ -7,12 +7,12 @@ CONSTANTS
  HandlerNames <- S_HandlerNames
  HandlerSeq <- S_HandlerSeq
  FailCodes <- S_FailCodes
- MaxCrashes = 1
- MaxConnEvents = 0
- MaxDevRestarts = 0
+ MaxCrashes = 0
+ MaxConnEvents = 5
+ MaxDevRestarts = 1
  MaxFailBursts = 0
- MaxSteps = 1000000
- Fine = TRUE
+ MaxSteps = 170
+ Fine = FALSE
  FineClients = FALSE
  AllPaths <- PU_All
  GoParent <- PU_GoParent
@@ -22,5 +22,4 @@ CONSTANTS
 INIT MCInit
 NEXT MCNext
 CHECK_DEADLOCK FALSE
-VIEW View
-INVARIANTS C07_MergedOnce C07_NoneSkipped C07_SameDecision C07_SameConfiguration C07_NotBlocked C07_DeviceConverged Cover
+INVARIANT Export
